@@ -175,7 +175,9 @@ def history(seed, cfg):
             op, args = G.gen_write(rng, s.tr, cfg.get("mix", G.DEFAULT_MIX))
             s.do(op, args)
             if rng.random() < cfg.get("observe_p", 0.15):
-                s.observe(cfg.get("mid_depth", 0), focus)
+                # a sweep in the middle of the history: mostly cheap, sometimes the full per-webentity sweep
+                # (stale caches and stale node copies only show when queries and writes alternate)
+                s.observe(1 if rng.random() < cfg.get("mid_deep_p", 0.4) else cfg.get("mid_depth", 0), focus)
         s.observe(cfg.get("depth", 1), focus)
         for fn in cfg.get("extra", []):
             fn(s, rng)
